@@ -39,6 +39,10 @@ def run(sh):
         seed = core.stable_int(sh.seed, 'C17', 'scratch', i) % (1 << 40)
         engine_line.run_spec(sh, 'C17', modelgen.generate_scratch_batches(seed, pol[i % 4]), MONITORS, nontrivial,
                              prefix='scratch_')
+    # scale: output batches of 256 .. 1000 parts
+    for i in sh.share(5 if sh.tier == 'quick' else 30):
+        engine_line.run_spec(sh, 'C17', modelgen.generate_big_batches(i, pol[i % 4]), MONITORS, nontrivial,
+                             prefix='big_batches_')
 
 
 def replay(sh, v):
